@@ -877,7 +877,7 @@ bool GennaroJareckiKrawczykRabinDKG::Generate
 		//     compute $z_i$, $f_i(z)$, $A_{ik}$ for $k = 0, \ldots, t$
 		//     in the clear.
 		// Note that in this section the indicies $i$ and $j$ are exchanged for convenience.
-		complaints.clear();
+		// My own complaints of step 4(b) are kept: the other parties find them valid, too.
 		for (size_t j = 0; j < n; j++)
 		{
 			if ((j != i) && (std::find(QUAL.begin(), QUAL.end(), j)	!= QUAL.end()))
